@@ -9,6 +9,9 @@
  *   3 SHORT        perform a short write (half the bytes) -- legal, must be tolerated
  *   4 KILL_BEFORE  raise(SIGKILL) before performing the call
  *   5 KILL_AFTER   perform the call, then raise(SIGKILL)
+ *   6 KILL_MID     perform half of a multi-page write / file copy, then raise(SIGKILL)
+ *                  (a fatal signal can cut a large write or sendfile short; single
+ *                  pages are written whole, so small writes are left alone)
  * at < 0 means count only.  The shim calls the real function in every other
  * case; it never alters data.
  */
@@ -19,6 +22,8 @@
 #include <stdio.h>
 #include <string.h>
 #include <sys/types.h>
+#include <sys/sendfile.h>
+#include <sys/uio.h>
 #include <unistd.h>
 
 #define LOG_MAX 16384
@@ -42,6 +47,13 @@ static int (*real_fdatasync)(int);
 static int (*real_ftruncate)(int, off_t);
 static int (*real_ftruncate64)(int, off64_t);
 static int (*real_unlink)(const char *);
+static int (*real_rename)(const char *, const char *);
+static int (*real_renameat)(int, const char *, int, const char *);
+static int (*real_truncate)(const char *, off_t);
+static int (*real_truncate64)(const char *, off64_t);
+static ssize_t (*real_sendfile)(int, int, off_t *, size_t);
+static ssize_t (*real_sendfile64)(int, int, off64_t *, size_t);
+static ssize_t (*real_copy_file_range)(int, off64_t *, int, off64_t *, size_t, unsigned int);
 
 #define RESOLVE(name) do { if (!real_##name) real_##name = dlsym(RTLD_NEXT, #name); } while (0)
 
@@ -111,8 +123,9 @@ static int decide(char call, char file, long size, long off)
         log_buf[idx].off = off;
     }
     if (target >= 0 && idx == target && fired < 0) {
-        if (kind == 3 && !(call == 'p' || call == 'w')) return 0; /* short: writes only */
+        if (kind == 3 && !(call == 'p' || call == 'w' || call == 'c')) return 0; /* short: writes only */
         if (kind == 3 && size < 2) return 0;
+        if (kind == 6 && !((call == 'p' || call == 'w') && size > 4096) && call != 'c') return 0;
         fired = idx;
         return kind;
     }
@@ -134,6 +147,7 @@ static void die(void)
     case 3: return REALCALL_HALF;                                              \
     case 4: die();                                                             \
     case 5: { ssize_t r = REALCALL_FULL; (void)r; die(); }                     \
+    case 6: { ssize_t r = REALCALL_HALF; (void)r; die(); }                     \
     default: return REALCALL_FULL;                                             \
     }
 
@@ -194,4 +208,51 @@ int unlink(const char *path)
 {
     RESOLVE(unlink);
     INT_BODY('u', match_path(path), real_unlink(path), 0)
+}
+
+int rename(const char *from, const char *to)
+{
+    RESOLVE(rename);
+    INT_BODY('r', match_path(to), real_rename(from, to), 0)
+}
+
+int renameat(int fd1, const char *from, int fd2, const char *to)
+{
+    RESOLVE(renameat);
+    INT_BODY('r', match_path(to), real_renameat(fd1, from, fd2, to), 0)
+}
+
+int truncate(const char *path, off_t len)
+{
+    RESOLVE(truncate);
+    INT_BODY('t', match_path(path), real_truncate(path, len), len)
+}
+
+int truncate64(const char *path, off64_t len)
+{
+    RESOLVE(truncate64);
+    INT_BODY('t', match_path(path), real_truncate64(path, len), len)
+}
+
+/* whole-file copies (shutil.copyfile uses sendfile / copy_file_range);
+ * the requested count is usually far larger than the file, so a partial copy
+ * stops after a few pages */
+#define COPY_PART(n) ((n) > 12288 ? 12288 : ((n) / 2 ? (n) / 2 : 1))
+ssize_t sendfile(int fd, int in_fd, off_t *off, size_t n)
+{
+    RESOLVE(sendfile);
+    WRITE_BODY('c', real_sendfile(fd, in_fd, off, n), real_sendfile(fd, in_fd, off, COPY_PART(n)), -1)
+}
+
+ssize_t sendfile64(int fd, int in_fd, off64_t *off, size_t n)
+{
+    RESOLVE(sendfile64);
+    WRITE_BODY('c', real_sendfile64(fd, in_fd, off, n), real_sendfile64(fd, in_fd, off, COPY_PART(n)), -1)
+}
+
+ssize_t copy_file_range(int in_fd, off64_t *in_off, int fd, off64_t *out_off, size_t n, unsigned int flags)
+{
+    RESOLVE(copy_file_range);
+    WRITE_BODY('c', real_copy_file_range(in_fd, in_off, fd, out_off, n, flags),
+               real_copy_file_range(in_fd, in_off, fd, out_off, COPY_PART(n), flags), -1)
 }
